@@ -222,8 +222,11 @@ class Engine:
         if not isinstance(v, VUnion):
             return [(p, v)]
         t = simp(v.t)
+        kk = self.known_kind(p, v.t, t)
         if z3.is_app(t) and t.decl().name().startswith('v_'):
             kinds = [t.decl().name()[2:]]
+        elif kk is not None:
+            kinds = [kk]
         else:
             s = z3.Solver()
             s.set('timeout', 3000)
@@ -260,6 +263,23 @@ class Engine:
                 self.wf_value(q, val)
                 out.append((q, val))
         return out
+
+    def known_kind(self, p, t0, t1):
+        """kind of a Val term if a tester atom about it is literally among the path's assumptions"""
+        for a in reversed(p.pc):
+            stack = [a]
+            while stack:
+                x = stack.pop()
+                if not z3.is_app(x):
+                    continue
+                if z3.is_and(x):
+                    stack.extend(x.children())
+                    continue
+                if x.decl().kind() == z3.Z3_OP_DT_IS and x.num_args() == 1:
+                    arg = x.arg(0)
+                    if arg.eq(t0) or arg.eq(t1):
+                        return x.decl().params()[0].name()[2:] if x.decl().params() else None
+        return None
 
     def wf_value(self, p, val):
         """CPython guarantees instantiated at read sites: references are live objects"""
@@ -893,5 +913,8 @@ class Engine:
         if isinstance(k, (VObj, VRef)):
             return k.t
         if isinstance(k, VUnion):
-            return k.get('int')
+            t = simp(k.t)
+            if z3.is_app(t) and t.decl().name() in ('v_obj', 'v_int', 'v_ref'):
+                return t.arg(0)
+            return z3.If(k.is_('obj'), k.get('obj'), z3.If(k.is_('ref'), k.get('ref'), k.get('int')))
         raise Unsupported('dict key %r' % (k,))
